@@ -51,6 +51,7 @@ type Check struct {
 	engErr   []string
 	exh      bool
 	exhSet   bool
+	batchNo  int
 }
 
 // New parses the common flags. level is the MANIFEST category of the check.
